@@ -455,6 +455,52 @@ def recordedIdx (keys : List InstKey) : IdxRec := fun k =>
         | none => true
     (cand.filterMap fun j => j.forks.lookup c).foldr insertIdx []
 
+def expKind : Exp → String
+  | .lit .null => "null" | .lit (.atom _) => "atom" | .lit _ => "lit"
+  | .arr _ => "arr" | .map _ => "maplit" | .struct _ => "structlit"
+  | .self _ _ => "self" | .ref _ _ => "ref"
+
+def tyText (st : StructTable) (t : Ty) : String :=
+  (if (st.lookup t.base).isSome then "STRUCT" else t.base) ++ s!"/{t.mapDim}/{t.arrDim}"
+
+/-- the first binding that fails the type discipline of the theorems (histogram only) -/
+def firstBadBind (P : Program) : String :=
+  let st := P.table
+  let n := st.length
+  let chk (sT cT : String → Ty) (t : Ty) (e : Exp) : Option String :=
+    if hasTyB st n sT cT t e then none else
+      some (expKind e ++ (match e with
+        | .self p path => ":" ++ tyText st (pathTy st (sT p) path)
+        | .ref c path => ":" ++ tyText st (pathTy st (cT c) path)
+        | _ => "") ++ " -> " ++ tyText st t)
+  let r := P.callables.findSome? fun kv =>
+    match kv.2 with
+    | .stage _ _ => none
+    | .pipeline pins outs calls ret =>
+      let sT := selfTyOfB pins
+      let rec go (L : List (String × Ty)) : List Call → Option String
+        | [] => outs.findSome? fun p =>
+            match ret.lookup p.name with
+            | some e => chk sT (callTyOfB L) p.ty e
+            | none => none
+        | c :: cs =>
+          match (P.insOf c.callee).findSome? (fun p =>
+              match c.binds.find? (fun b => b.param == p.name) with
+              | some b => if b.split then none else chk sT (callTyOfB L) p.ty b.exp
+              | none => none) with
+          | some r => some r
+          | none => go (L ++ [(c.id, callTyMB c)]) cs
+      go [] calls
+  match r with
+  | some r => r
+  | none =>
+    match (P.insOf P.top.callee).findSome? (fun p =>
+        match P.top.binds.find? (fun b => b.param == p.name) with
+        | some b => chk (selfTyOfB []) (callTyOfB []) p.ty b.exp
+        | none => none) with
+    | some r => "top " ++ r
+    | none => "other (split binding / disabled map call / clean)"
+
 mutual
 partial def hasMapMode : STree → Bool
   | .node _ => false
@@ -556,7 +602,7 @@ def staticReply (P : Program) (obs : Option Obs) : String :=
     if !wellTypedEB P then
       (if s.2.any hasMapMode then
         (let k := s.2.foldl (fun a t => let x := mapModeKinds t; (a.1 || x.1, a.2.1 || x.2.1, a.2.2 || x.2.2)) (false, false, false)
-         s!"typing: a typed-map mode map call (static={k.1} runtime={k.2.1} nested-below={k.2.2})") else "typing: other (struct to untyped map, map literal at untyped map, disabled map call, ...)") else
+         s!"typing: a typed-map mode map call (static={k.1} runtime={k.2.1} nested-below={k.2.2})") else "typing: " ++ firstBadBind P) else
     if !decide ((nodes.map fun n => fqid n.path).Nodup) then "node names" else
     if !treeOkList [] s.2 && !treeOkPList [] s.2 then "tree: typed-map mode / cancelling merge / id repeats" else
     if kindR == "X" then "index sets" else "oracle not clean / other"
